@@ -14,9 +14,80 @@ open Rbgp.Export Rbgp.Export.Attr
 
 /-! ## master theorems: the reference checker accepts every run of the model -/
 
-/-- export half: for every receiver, source, policy and attribute set -/
-theorem check_run_ok (c : ExportCase) : Spec.checkExport c (exportOne c) = .ok :=
-  Proofs.checkExport_exportOne c
+/-- export half: for every receiver that is not a route-server client, every source, policy and
+    attribute set -/
+theorem check_run_ok (c : ExportCase) (hrs : c.sess.ctx.role ≠ .rsClient) :
+    Spec.checkExport c (exportOne c) = .ok :=
+  Proofs.checkExport_exportOne c hrs
+
+/-- ... and for every receiver, route-server clients included, every sentence of the statement but
+    the one finding F09-rs-client-internal-attributes is about ("rs-client-internal-attribute-sent") holds on what is sent -/
+theorem check_run_all_but_rs {c : ExportCase} {out : Attrs} {nh : Option Nh} (hwf : Spec.wfExport c = true)
+    (hv : visible c.sess c.path = true) (hx : xform c.sess c.path = some (out, nh)) :
+    ∀ x ∈ Spec.exportClauses c nh (sortByCode out), x.2 ≠ "rs-client-internal-attribute-sent" → x.1 = false :=
+  Proofs.clauses_exportOne hwf hv hx
+
+/-- liveness of the model (the checker accepts `suppressed` everywhere, the model does not suppress
+    everywhere): an advertisement is produced exactly when the path passes echo prevention, split
+    horizon and RS isolation, the export policy accepts it and the window is not empty -/
+theorem advertised_iff (c : ExportCase) :
+    Proofs.isReach (exportOne c) =
+      (visible c.sess c.path && (xform c.sess c.path).isSome && (c.sess.max != 0)) :=
+  Proofs.exportOne_isReach c
+
+/-- the full-strength statement: every receiver -/
+def C09_full : Prop := ∀ c : ExportCase, Spec.checkExport c (exportOne c) = .ok
+
+/-- a route-server client's LOCAL_PREF / ORIGINATOR_ID reach the other clients (finding F09-rs-client-internal-attributes) -/
+def caseRsLeak : ExportCase :=
+  { sess := ⟨⟨.rsClient, 65001, .v4 167772417, none, 0⟩, .v4 167772161, none, none, .ipv4, 1⟩,
+    path := { pid := 1, src := ⟨.peer, .v4 167772162, 65002, 65001, 33686018, .rsClient, false⟩,
+              nh := some (.v4 167772162), attrs := [.val 1 0, .aspath [(2, [65002])], .val 5 200, .val 9 84215045] } }
+
+theorem C09_full_fails : ¬ C09_full := by
+  intro h
+  have := h caseRsLeak
+  revert this
+  decide
+
+/-- a route that turns LLGR-stale after it was advertised is advertised again, with LLGR_STALE and
+    rewritten as any advertisement of a stale route (`exportTwice`: send, `restale_llgr`, re-feed) -/
+theorem check_stale_ok (c : ExportCase) (hrs : c.sess.ctx.role ≠ .rsClient) :
+    Spec.checkExport2 c (exportTwice c).1 (exportTwice c).2 = .ok :=
+  Proofs.checkExport2_exportTwice c hrs
+
+/-- the second half of `exportTwice` is a fresh export of the stale route -/
+theorem stale_is_readvertised (c : ExportCase) :
+    exportTwice c = (exportOne c, Proofs.toObs2 (exportOne (Spec.staleCase c))) :=
+  Proofs.exportTwice_eq c
+
+/-! ## wire cases (two real sessions of one configured router): no theorem of their own; the model
+    `WireCase.run` composes `rxInstalled` and `exportOne` on the session parameters
+    `accept_connection` derives.  The full-strength statement over configurations fails twice: -/
+
+def C09_wire_full : Prop := ∀ w : WireCase, Spec.checkWire w w.run = .ok
+
+/-- finding F09-cluster-loop-non-ibgp-session: the CLUSTER_LIST loop test is skipped on sessions that are not iBGP -/
+def wireClusterLoop : WireCase :=
+  { asn := 65001, rid := 16843009, confed := some (65100, [65101]), localAddr := .v4 2130706433,
+    src := ⟨.v4 2130706434, 65101, 0, 33686018, false, false, none⟩, dst := none, dstFirst := false,
+    nh := .v4 2130706434, attrs := [.val 1 0, .aspath [(3, [65101])], .val 5 100, .words 10 [16843009]] }
+
+/-- finding F09-member-as-loop-external-session: towards a neighbour outside the confederation only the confederation id is looked
+    for in the AS_PATH, not the router's own (member) AS -/
+def wireMemberAsLoop : WireCase :=
+  { asn := 65001, rid := 16843009, confed := some (65100, [65101]), localAddr := .v4 2130706433,
+    src := ⟨.v4 2130706434, 65002, 0, 33686018, false, false, none⟩, dst := none, dstFirst := false,
+    nh := .v4 2130706434, attrs := [.val 1 0, .aspath [(2, [65002, 65001])]] }
+
+theorem C09_wire_full_fails : ¬ C09_wire_full := by
+  intro h
+  have := h wireClusterLoop
+  revert this
+  decide
+
+example : Spec.checkWire wireMemberAsLoop wireMemberAsLoop.run = .fail "as-loop-route-installed" := by decide
+example : Spec.checkWire wireClusterLoop wireClusterLoop.run = .fail "cluster-loop-route-installed" := by decide
 
 /-- inbound half: a looping UPDATE is never installed -/
 theorem check_rx_ok (c : RxCase) : Spec.checkRx c (rxInstalled c) = .ok :=
@@ -57,6 +128,13 @@ theorem originator_loop_rejected (c : RxCase) (v : Nat)
 theorem cluster_loop_rejected (c : RxCase) (cid : Nat) (ws : List Nat) (hc : c.cluster = some cid)
     (hf : findCode CLUSTER_LIST c.attrs = some (.words CLUSTER_LIST ws)) (h : cid ∈ ws) :
     rxInstalled c = false := Proofs.cluster_loop_rejected c cid ws hc hf h
+
+/-- only reflected routes gain reflection attributes: a locally originated, kernel or eBGP-learned
+    route reaches an iBGP peer with the ORIGINATOR_ID / CLUSTER_LIST it had (none, usually) -/
+theorem nonreflected_keeps_originator_and_cluster {c : ExportCase} {out : Attrs} {nh : Option Nh}
+    (hwf : Spec.wfExport c = true) (hv : visible c.sess c.path = true)
+    (hx : xform c.sess c.path = some (out, nh)) : Spec.badSpuriousReflect c (sortByCode out) = false :=
+  Proofs.badSpuriousReflect_false hwf hv hx
 
 /-! ## to eBGP peers -/
 
@@ -218,6 +296,25 @@ example : rxInstalled ⟨65001, 0, 16843009, some 16909060, .ibgp, [.val 1 0, .a
   decide
 
 #print axioms check_run_ok
+/-- non-vacuity at the route-server boundary, in the add-path branch and for the two singleton sources -/
+def rsSrc : Source := ⟨.peer, .v4 167772162, 65002, 65001, 33686018, .rsClient, false⟩
+example : Proofs.isReach (exportOne ⟨sess ⟨.rsClient, 65001, .v4 167772417, none, 0⟩ none, samplePath rsSrc⟩) = true := by decide
+example : exportOne ⟨sess ⟨.rsClient, 65001, .v4 167772417, none, 0⟩ none, samplePath ebgpSrc⟩ = .suppressed := by decide
+example : exportOne ⟨sess ebgpCtx none, samplePath rsSrc⟩ = .suppressed := by decide
+example : Proofs.isReach (exportOne ⟨{ sess ebgpCtx none with max := 3 }, samplePath ebgpSrc⟩) = true := by decide
+example : Proofs.isReach (exportOne ⟨sess ⟨.ibgp, 65001, .v4 167772417, none, 0⟩ none,
+    samplePath ⟨.kernel, .v4 0, 0, 0, 0, .ibgp, false⟩⟩) = true := by decide
+example : Proofs.isReach (exportOne ⟨sess ⟨.ibgp, 65001, .v4 167772417, none, 0⟩ (some 16909060),
+    samplePath ⟨.locl, .v4 0, 0, 0, 0, .ibgp, false⟩⟩) = true := by decide
+example : (exportTwice ⟨sess ebgpCtx none, samplePath { ebgpSrc with llgr := false }⟩).2 ≠ .nothing := by decide
+
+#print axioms advertised_iff
+#print axioms check_run_all_but_rs
+#print axioms C09_full_fails
+#print axioms check_stale_ok
+#print axioms stale_is_readvertised
+#print axioms C09_wire_full_fails
+#print axioms nonreflected_keeps_originator_and_cluster
 #print axioms check_rx_ok
 #print axioms no_echo
 #print axioms no_nonclient_to_nonclient
